@@ -403,10 +403,11 @@ def _prevalence_threshold(cm: _ConfusionMatrix) -> types.NumbersT:
 
 def _matthews_correlation_coefficient(cm: _ConfusionMatrix) -> types.NumbersT:
   """Matthews corrrelation coefficient (MCC)."""
-  numerator = cm.tp * cm.tn - cm.fp * cm.fn
-  denominator = math_utils.pos_sqrt(
-      (cm.tp + cm.fp) * (cm.tp + cm.fn) * (cm.tn + cm.fp) * (cm.tn + cm.fn)
-  )
+  # In floating point: the products of the integer counts overflow int64 from
+  # about 1e5 examples.
+  tp, tn, fp, fn = (np.asarray(x, dtype=float) for x in (cm.tp, cm.tn, cm.fp, cm.fn))
+  numerator = tp * tn - fp * fn
+  denominator = math_utils.pos_sqrt((tp + fp) * (tp + fn) * (tn + fp) * (tn + fn))
   return math_utils.safe_divide(numerator, denominator)
 
 
